@@ -4,7 +4,7 @@
    deep comparison of the input document before/after every generated query. *)
 From Coq Require Import List Arith Bool.
 Import ListNotations.
-From GenqlV Require Import Base.Trace Proofs.C11Lemmas.
+From GenqlV Require Import Base.Trace Proofs.C11Lemmas Proofs.C11History.
 
 (* if every write of an execution goes to an object the execution allocated itself (and the
    allocator never hands out an input object), then at EVERY prefix of the execution — i.e. at
@@ -34,6 +34,44 @@ Theorem C11_pinned_protocol_not_fresh : forall pre row fails,
   writes_fresh pre [] (pinned_marker_trace row fails) = false.
 Proof. exact pinned_marker_not_fresh. Qed.
 Print Assumptions C11_pinned_protocol_not_fresh.
+
+(* HISTORIES: after any sequence of queries against the same document — each of which only writes
+   what it allocated itself — stopped at any point (inside the k-th query, between two queries,
+   after an error of any of them), every input object still has its initial content *)
+Theorem C11_history_preserves_input : forall pre trs h,
+  Forall (fun tr => writes_fresh pre [] tr = true) trs ->
+  forall p q, concat trs = p ++ q ->
+  forall x, pre x = true -> run_trace h p x = h x.
+Proof. exact history_preserves_input. Qed.
+Print Assumptions C11_history_preserves_input.
+
+(* staged evaluation (a common table expression and the query reading it, a subquery and its
+   parent): the later stage may fill objects the earlier stage allocated; the input stays intact *)
+Theorem C11_staged_preserves_input : forall pre tr1 tr2 h,
+  writes_fresh pre [] tr1 = true ->
+  writes_fresh pre (allocs tr1 []) tr2 = true ->
+  forall p q, tr1 ++ tr2 = p ++ q ->
+  forall x, pre x = true -> run_trace h p x = h x.
+Proof. exact staged_preserves_input. Qed.
+Print Assumptions C11_staged_preserves_input.
+
+(* the condition is necessary: one write into an input object — wherever it stands — is visible
+   to the caller at the crash point right after it, and the freshness check rejects the trace *)
+Theorem C11_input_write_observable : forall pre p a v,
+  pre a = true -> exists h, run_trace h (p ++ [Write a v]) a <> h a.
+Proof. exact input_write_observable. Qed.
+Print Assumptions C11_input_write_observable.
+
+Theorem C11_input_write_not_fresh : forall pre p owned a v q,
+  pre a = true -> (forall b, In b owned -> pre b = false) ->
+  writes_fresh pre owned (p ++ Write a v :: q) = false.
+Proof. exact input_write_not_fresh. Qed.
+Print Assumptions C11_input_write_not_fresh.
+
+Example C11_history_nonvacuous :
+  Forall (fun tr => writes_fresh (fun a => Nat.ltb a 10) [] tr = true)
+    [[Read 3; Alloc 10; Write 10 7]; []; [Alloc 11; Write 11 1; Read 10]; [Read 4; Alloc 12; Write 12 2]].
+Proof. repeat constructor. Qed.
 
 Example C11_nonvacuous :
   writes_fresh (fun a => Nat.ltb a 10) []
